@@ -10,6 +10,7 @@ pub fn families() -> Vec<(&'static str, crate::Family)> {
         ("c14_builtins", c14_builtins),
         ("c14_validate", c14_validate),
         ("c14_validate_params", c14_validate_params),
+        ("c14_cycles", c14_cycles),
     ]
 }
 
@@ -117,4 +118,21 @@ fn c14_validate(line: &str) -> String {
 /// input: `<flags> <hex source> ...` (the flags concern the model only)
 fn c14_validate_params(line: &str) -> String {
     c14_validate(line.split_once(' ').expect("flags").1)
+}
+
+/// input: `<hex source> ...`; output: which of the cycle diagnostics validation reports:
+/// `ri=` RecursiveInputObjectDefinition, `rd=` RecursiveDirectiveDefinition, `deep=` DeeplyNestedType
+fn c14_cycles(line: &str) -> String {
+    let src = unhex(line.split(' ').next().expect("source"));
+    let k = match Schema::parse_and_validate(src, "schema.graphql") {
+        Ok(_) => vec![],
+        Err(e) => kinds(&e.errors),
+    };
+    let b = |n: &str| if k.iter().any(|x| x == n) { "1" } else { "0" };
+    format!(
+        "ri={} rd={} deep={}",
+        b("RecursiveInputObjectDefinition"),
+        b("RecursiveDirectiveDefinition"),
+        b("DeeplyNestedType")
+    )
 }
